@@ -41,7 +41,9 @@ def make_scratch(repo):
     d = tempfile.mkdtemp(prefix='pushr_kani_')
     shutil.copytree(os.path.join(repo, 'src'), os.path.join(d, 'src'))
     for f in ('Cargo.toml', 'Cargo.lock'):
-        shutil.copy(os.path.join(repo, f), os.path.join(d, f))
+        src = os.path.join(repo, f)
+        if not os.path.exists(src): src = os.path.join('/repo', f)   # Cargo.lock is untracked: scratch worktrees do not have it
+        shutil.copy(src, os.path.join(d, f))
     os.makedirs(os.path.join(d, '.cargo'))
     open(os.path.join(d, '.cargo', 'config.toml'), 'w').write('[net]\noffline = true\n')
     appended = []
